@@ -546,14 +546,13 @@ const struct attr_ops xen_dirty_xlat_ops = {
 
 /**  Addrxlat put_page callback.
  * @param buf   Page buffer metadata.
- * @returns     Error status.
+ *
+ * The buffer is a private copy of the page, see @ref addrxlat_get_page.
  */
 static void
 addrxlat_put_page(const addrxlat_buffer_t *buf)
 {
-	struct page_io *pio = buf->priv;
-	put_page(pio);
-	free(pio);
+	free(buf->priv);
 }
 
 /**  Addrxlat read_caps callback.
@@ -576,29 +575,41 @@ static addrxlat_status
 addrxlat_get_page(const addrxlat_cb_t *cb, addrxlat_buffer_t *buf)
 {
 	kdump_ctx_t *ctx = (kdump_ctx_t*) cb->priv;
-	struct page_io *pio;
+	struct page_io pio;
 	kdump_status status;
-
-	pio = malloc(sizeof *pio);
-	if (!pio)
-		return addrxlat_ctx_err(ctx->xlatctx, ADDRXLAT_ERR_NOMEM,
-					"Cannot allocate pio structure");
+	void *data;
 
 	/* init all fields here except ptr */
 	buf->addr.addr = page_align(ctx, buf->addr.addr);
 	buf->size = get_page_size(ctx);
 	buf->byte_order = get_byte_order(ctx);
 	buf->put_page = addrxlat_put_page;
-	buf->priv = pio;
+	buf->priv = NULL;
 
-	pio->ctx = ctx;
-	pio->addr.addr = buf->addr.addr;
-	pio->addr.as = buf->addr.as;
-	status = get_page(pio);
-	if (status != KDUMP_OK)
+	/* The translation context keeps its read buffers across library
+	 * calls.  Give it a private copy of the page, so that no page cache
+	 * entry stays referenced after this function returns: a pinned
+	 * entry would reduce the usable cache size (a cache of up to four
+	 * entries would be permanently busy), and it would be left dangling
+	 * when the cache is re-allocated.
+	 */
+	data = malloc(buf->size);
+	if (!data)
+		return addrxlat_ctx_err(ctx->xlatctx, ADDRXLAT_ERR_NOMEM,
+					"Cannot allocate page buffer");
+
+	pio.ctx = ctx;
+	pio.addr.addr = buf->addr.addr;
+	pio.addr.as = buf->addr.as;
+	status = get_page(&pio);
+	if (status != KDUMP_OK) {
+		free(data);
 		return kdump2addrxlat(ctx, status);
+	}
+	memcpy(data, pio.chunk.data, buf->size);
+	put_page(&pio);
 
-	buf->ptr = pio->chunk.data;
+	buf->ptr = buf->priv = data;
 	return ADDRXLAT_OK;
 }
 
